@@ -101,6 +101,73 @@ fn run_case(line: &str) -> String {
     format!("calls={} later={}", first.join(","), later.join(","))
 }
 
+/// An fd closed behind the loop (C15): disable() of its source fails; that failure must not touch any other source - in particular a NEW
+/// source over a new fd that happens to get the same number is accepted and served.
+/// Output: disable_err same_number insert_ok delivered
+struct FdNum(i32);
+impl std::os::fd::AsFd for FdNum {
+    fn as_fd(&self) -> std::os::fd::BorrowedFd<'_> {
+        // safety: only used while the number is open, or to let the poller report EBADF for it
+        unsafe { std::os::fd::BorrowedFd::borrow_raw(self.0) }
+    }
+}
+
+fn run_closed_fd_case(line: &str) -> String {
+    use std::os::fd::{AsRawFd, IntoRawFd};
+    let then_remove = line.trim() == "closed_fd_remove";
+    let mut event_loop: EventLoop<'static, ()> = EventLoop::try_new().expect("loop");
+    let handle = event_loop.handle();
+    let a = rustix::event::eventfd(0, rustix::event::EventfdFlags::CLOEXEC | rustix::event::EventfdFlags::NONBLOCK).expect("eventfd");
+    let n = a.into_raw_fd();
+    let tok_a = handle
+        .insert_source(calloop::generic::Generic::new(FdNum(n), Interest::READ, Mode::Level), |_, _, _| Ok(PostAction::Continue))
+        .expect("insert A");
+    unsafe { libc::close(n) };
+    let disable_err = handle.disable(&tok_a).is_err();
+    if then_remove {
+        handle.remove(tok_a);
+    }
+    let b = ready_eventfd();
+    let mut bn = b.as_raw_fd();
+    let mut keep = Some(b);
+    if bn != n {
+        // make sure the new fd carries the old number
+        unsafe { libc::dup2(bn, n) };
+        keep = None;
+        bn = n;
+    }
+    let same_number = bn == n;
+    let hits = Rc::new(Cell::new(0u32));
+    let h2 = hits.clone();
+    let ins = handle.insert_source(calloop::generic::Generic::new(FdNum(n), Interest::READ, Mode::Level), move |_, _, _| {
+        h2.set(h2.get() + 1);
+        Ok(PostAction::Continue)
+    });
+    let insert_ok = ins.is_ok();
+    let _ = event_loop.dispatch(Some(Duration::ZERO), &mut ());
+    let out = format!(
+        "disable_err={} same_number={} insert_ok={} delivered={}",
+        disable_err as u8,
+        same_number as u8,
+        insert_ok as u8,
+        (hits.get() > 0) as u8
+    );
+    // tear down in an order that leaves no registration over a closed number
+    if let Ok(t) = ins {
+        handle.remove(t);
+    }
+    drop(event_loop);
+    drop(keep);
+    out
+}
+
+pub fn run_closed_fd() {
+    crate::for_each_line(|l| {
+        let r = std::panic::catch_unwind(|| run_closed_fd_case(l)).unwrap_or_else(|_| "PANIC".to_string());
+        println!("{}", r);
+    });
+}
+
 pub fn run() {
     crate::for_each_line(|l| {
         let r = std::panic::catch_unwind(|| run_case(l)).unwrap_or_else(|_| "PANIC".to_string());
